@@ -726,6 +726,8 @@ private:
       date.tm_hour = static_cast<decltype(date.tm_hour)>(config.daily_rotation_time().first.count());
       date.tm_min = static_cast<decltype(date.tm_min)>(config.daily_rotation_time().second.count());
       date.tm_sec = 0;
+      // whether DST is in effect at HH:MM can differ from the start instant, let mktime decide
+      date.tm_isdst = -1;
     }
     else
     {
@@ -733,8 +735,22 @@ private:
     }
 
     // convert back to timestamp
-    time_t const rotation_time =
+    time_t rotation_time =
       (config.timezone() == Timezone::GmtTime) ? detail::timegm(&date) : std::mktime(&date);
+
+    if ((rotation_time <= time_now) &&
+        (config.rotation_frequency() == RotatingFileSinkConfig::RotationFrequency::Daily))
+    {
+      // HH:MM has already passed today, use the same wall clock time of the next calendar day.
+      // Adding 24 hours instead is off by the utc offset change when DST starts or ends
+      date.tm_mday += 1;
+      date.tm_hour = static_cast<decltype(date.tm_hour)>(config.daily_rotation_time().first.count());
+      date.tm_min = static_cast<decltype(date.tm_min)>(config.daily_rotation_time().second.count());
+      date.tm_sec = 0;
+      date.tm_isdst = -1;
+      rotation_time =
+        (config.timezone() == Timezone::GmtTime) ? detail::timegm(&date) : std::mktime(&date);
+    }
 
     uint64_t const rotation_time_seconds = (rotation_time > time_now)
       ? static_cast<uint64_t>(rotation_time)
@@ -763,7 +779,9 @@ private:
 
     if (config.rotation_frequency() == RotatingFileSinkConfig::RotationFrequency::Daily)
     {
-      return rotation_timestamp_ns + std::chrono::nanoseconds{std::chrono::hours{24}}.count();
+      // the next HH:MM after the record that triggered the rotation. Adding 24 hours to the record
+      // timestamp would move the daily rotation time whenever a record arrives late
+      return _calculate_initial_rotation_tp(rotation_timestamp_ns, config);
     }
 
     QUILL_THROW(QuillError{"Invalid rotation frequency"});
